@@ -255,3 +255,9 @@ def c08_dunders(repo):
 
 
 ITEMS.append(c08_dunders)
+
+try:
+    from translate_c14 import ITEMS as _C14
+    ITEMS += _C14
+except ImportError:
+    pass
